@@ -250,6 +250,21 @@ class VSymList(SV):
         self.length = None
 
 
+class VText(SV):
+    """Abstract program text (ghost typing): the loosest top-level operator class of the text and its
+    boolean denotation over the primitive clauses.  Used for the policy translator (C18)."""
+    __slots__ = ("prec", "den", "label")
+    cls = str
+
+    def __init__(self, prec, den, label=""):
+        self.prec = prec
+        self.den = den
+        self.label = label
+
+    def __repr__(self):
+        return f"VText(prec={self.prec},{self.den})"
+
+
 class VOpaque(SV):
     """A value the executor knows nothing about except (optionally) its class."""
     __slots__ = ("label", "cls")
